@@ -102,7 +102,15 @@ def dataset_2d_grouper_dim_order(case, clause, detail):
     return bool(case.get("dataset")) and str(case.get("grouper", "")).endswith("2d") and clause == "xarray:dims"
 
 
+def uint64_min_numba_chunked(case, clause, detail):
+    """min/nanmin of uint64 data on chunked input with engine='numba': the intermediate fill iinfo(uint64).max cannot be
+    converted by the numba kernels of numpy_groupies (OverflowError 'int too big to convert')"""
+    return (case.get("indtype") == "u8" and case.get("func") in ("min", "nanmin") and case.get("engine") == "numba"
+            and case.get("path") not in (None, "eager") and clause == "exception:OverflowError")
+
+
 MATCHERS = {
+    "uint64_min_numba_chunked": uint64_min_numba_chunked,
     "dataset_var_without_group_dim": dataset_var_without_group_dim,
     "dataset_2d_grouper_dim_order": dataset_2d_grouper_dim_order,
     "datetime_firstlast_nan_fill": datetime_firstlast_nan_fill,
